@@ -24,8 +24,9 @@ R(f, e) == [fails |-> f, ex |-> e]
 ExpectedCalls(ev) == IF ev.size = 1 THEN CallsForPoints(Column(ev.T, 1)) ELSE CallsForTuples(ev.T, ev.size)
 
 QueryStep(ev) ==
-  R((IF ev.exc = "" /\ ev.digests.array = ev.digests.formed /\ ev.digests.list = ev.digests.formed
-        /\ ev.digests.callable = ev.digests.formed
+  \* every representation present (a nested list cannot carry the dtype of a float32 / integer store and is then absent)
+  R((IF ev.exc = "" /\ {"formed", "array", "callable"} \subseteq DOMAIN ev.digests
+        /\ \A k \in DOMAIN ev.digests : ev.digests[k] = ev.digests.formed
      THEN {} ELSE {"C05.same_result_as_formed_data"})
     \cup (IF ev.method = "fit" \/ ev.calls = ExpectedCalls(ev) THEN {} ELSE {"X05.preprocessor_called_once_per_column_in_order"})
     \cup (IF ev.formed_calls = 0 THEN {} ELSE {"C05.formed_data_does_not_consult_preprocessor"}),
